@@ -578,7 +578,27 @@ RULE_ADDENDA = {
     'C20': ' Tree helpers include as_promoted_dtype with one weakly typed leaf, call sequences on one structure (sign of zero compared) and '
            'the same request before/inside/after a temporary switch of the 64-bit mode.',
 }
+RULE_ADDENDA_4 = {
+    'C01': ' Near misses include reversal slices (shape-preserving indexing that is not the identity).',
+    'C03': ' Broadcast-diagonal atoms include those stretching a length-1 axis (the transpose sums over it); Toeplitz atoms take user-chosen FFT sizes.',
+    'C05': ' One case in twenty uses a Stokes container whose components have different dtypes under component-wise operators.',
+    'C06': ' Closed forms include integer-valued scalars; one closed case in ten round-trips a non-square axis permutation on leaves of different ranks.',
+    'C08': ' Harness classes include complex Hermitian operators under the public semidefinite decorators.',
+    'C09': ' Half-precision data (float16, bfloat16) in a fifth of the cases; 16 (quick) / 64 cases with bands of 16 385 to 40 000 values.',
+    'C10': ' Chains include row-times-column products whose block products are scalars.',
+    'C11': ' A third of the multi-leaf cases give the leaves different dtypes (values in the narrowest).',
+    'C12': ' A quarter of the pack part reduces H.T @ H / H @ H.T chains in which the selection pair only becomes adjacent after its neighbours cancelled.',
+    'C13': ' One case in five is a chain of two or three axis operators on leaves of rank 3-5; one in 25 uses weakly typed input structures.',
+    'C14': ' A third of the per-leaf strings use leaves of different dtypes with blocks in the narrowest.',
+    'C15': ' One case in ten applies the operators to complex Stokes data; as_matrix() of one operator in a quarter of the cases.',
+    'C17': ' One pixel case in eight uses integer-typed coordinates (int8/int16/uint8/int32, mixed) on maps of up to 200 / 20x20 / 7x7x7 pixels.',
+    'C18': ' One case in ten applies a sum of three or more terms to NumPy data (eager and jit; the data must be left unmodified); a quarter of the other cases repeat the eager call on NumPy copies.',
+    'C19': ' Options may hold a block-diagonal preconditioner; taking the inverse of a block-diagonal operator is an event; composites of two dense factors are reduced next to their own factors.',
+}
 for _p, _t in RULE_ADDENDA.items():
-    PROPS[_p]['rule'] = PROPS[_p]['rule'] + _t
+    PROPS[_p]['rule'] = PROPS[_p]['rule'] + _t + RULE_ADDENDA_4.get(_p, '')
+for _p, _t in RULE_ADDENDA_4.items():
+    if _p not in RULE_ADDENDA:
+        PROPS[_p]['rule'] = PROPS[_p]['rule'] + _t
 
 NOT_APPLICABLE: dict[str, str] = {}
